@@ -880,6 +880,9 @@ func (fr *Frame) opaqueCall(st *State, site ssa.Instruction, fn *ssa.Function, a
 		if iv, isI := ak.(*IfaceV); isI && iv.V != nil {
 			ak = iv.V // a pointer handed over as an interface value (binary.Read(r, order, &x))
 		}
+		if ap, isAP := ak.(*ArrPtrV); isAP {
+			ak = ap.S // a pointer to an array that is a window of a slice: the backing object of that slice
+		}
 		switch a := ak.(type) {
 		case *SliceV:
 			if a.Obj != nil {
